@@ -77,8 +77,8 @@ Qed.
 Lemma sim_fill : forall fx p, Sim (set_fill fx p).
 Proof.
   intros fx p w pa. unfold set_fill. destruct (paint_eqb p (wfill w)).
-  - destruct fx; [|reflexivity]. destruct p; try reflexivity. apply sim_alpha.
-  - destruct p as [|c|id]; try reflexivity.
+  - destruct fx; [|reflexivity]. destruct p; try reflexivity; apply sim_alpha.
+  - destruct p as [|c|id]; [reflexivity| |destruct fx; [unfold set_alpha; destruct (qeqb 1 (walpha w)); reflexivity|reflexivity]].
     pose proof (gray_col c) as Hg. unfold set_alpha.
     destruct (paint_col (PColor c)) as [[r g] b] eqn:Ec.
     destruct (is_gray c) eqn:Eg; destruct (qeqb (paint_alpha (PColor c)) (walpha w)) eqn:Ea;
@@ -90,8 +90,8 @@ Qed.
 Lemma sim_stroke : forall fx p, Sim (set_stroke fx p).
 Proof.
   intros fx p w pa. unfold set_stroke. destruct (paint_eqb p (wstroke w)).
-  - destruct fx; [|reflexivity]. destruct p; try reflexivity. apply sim_alpha.
-  - destruct p as [|c|id]; try reflexivity.
+  - destruct fx; [|reflexivity]. destruct p; try reflexivity; apply sim_alpha.
+  - destruct p as [|c|id]; [reflexivity| |destruct fx; [unfold set_alpha; destruct (qeqb 1 (walpha w)); reflexivity|reflexivity]].
     pose proof (gray_col c) as Hg. unfold set_alpha.
     destruct (paint_col (PColor c)) as [[r g] b] eqn:Ec.
     destruct (is_gray c) eqn:Eg; destruct (qeqb (paint_alpha (PColor c)) (walpha w)) eqn:Ea;
